@@ -392,7 +392,12 @@ func (sc *SizeCalculator) FindSplitPointAt(text string, boundaries []Boundary, t
 	case SizeUnitCharacters:
 		targetPos = targetSize
 	case SizeUnitTokens:
-		targetPos = int(float64(targetSize) / sc.config.TokensPerChar)
+		// Use the same default ratio as EstimateTokens when TokensPerChar is unset
+		ratio := sc.config.TokensPerChar
+		if ratio <= 0 {
+			ratio = 0.25
+		}
+		targetPos = int(float64(targetSize) / ratio)
 	case SizeUnitWords:
 		targetPos = targetSize * 6 // Rough estimate: 6 chars per word
 	case SizeUnitSentences:
